@@ -229,6 +229,8 @@ type vfEndpoint struct {
 	rdl   time.Time
 	rdSig chan struct{}
 	wrErr error // injected write error
+	wrFailAt map[int]error // transient: the k-th WriteTo call (0-based, counted in wrCalls) is refused once with this error
+	wrCalls  int
 	// blockWrites makes WriteTo park (honouring deadline/close) until released.
 	blockWrites chan struct{}
 	wdl         time.Time
@@ -307,6 +309,10 @@ func (e *vfEndpoint) WriteTo(b []byte, addr net.Addr) (int, error) {
 	e.mu.Lock()
 	werr := e.wrErr
 	blk := e.blockWrites
+	if ferr, ok := e.wrFailAt[e.wrCalls]; ok && werr == nil {
+		werr = ferr
+	}
+	e.wrCalls++
 	e.mu.Unlock()
 	if werr != nil {
 		return 0, werr
